@@ -7,4 +7,7 @@ AllKeys == [1..KeyLen -> Alphabet]
 \* scenario export: one line per distinct state (BFS => a shortest history)
 EmitInv == PrintT(<<"SCN", ToJson([ops |-> hist,
                                    rl |-> [i \in 1..Len(rl) |-> [p |-> rl[i].p, k |-> rl[i].k]]])>>)
+\* one scenario per TRANSITION of the state graph
+EmitEdges == [][PrintT(<<"SCN", ToJson([ops |-> hist',
+                                        rl |-> [i \in 1..Len(rl') |-> [p |-> rl'[i].p, k |-> rl'[i].k]]])>>)]_vars
 =======================================================================
